@@ -58,6 +58,16 @@ def add_like_cells(d, rng, n=None, chain_p=0.5, keys=None, multi_p=0.35):
                 if c.mat == 0:
                     continue
                 c.rho = rng.choice(['-3.5', '-4.5', '0.07', '-1.25', '-9.', '2.5-2'])
+                if rng.random() < 0.3 and base.rho is not None:
+                    # a density a few 1e-4 away from the one of cell n (same sign): another composition all the same
+                    try:
+                        from MIP.mip.utils import to_float
+                        b0 = to_float(base.rho)
+                        c.rho = repr(round(b0 + rng.choice([1, -1]) * rng.choice([2e-4, 5e-4, 8e-4]) * (1 if b0 > 0 else -1) * 1, 7))
+                        if (to_float(c.rho) > 0) != (b0 > 0) or to_float(c.rho) == b0:
+                            c.rho = repr(round(b0 * 1.0003, 7))
+                    except Exception:  # noqa
+                        pass
                 opts.append('rho=%s' % c.rho)
             elif k == 'trcl':
                 m, cls = G.random_motion(rng, rng.choice(['id', 'perm', 'pyth']))
